@@ -453,6 +453,8 @@ def check(ctx: Ctx) -> None:
     # forever_stopped, which requires the reason test to precede the runner's own stopper.set(DONE)
     from . import _stoppers
     _stoppers.check_runner_exit_order(ctx, 'R11.6')
+    from . import _extra
+    _extra.check_activity_accumulates(ctx, 'R11.6')
 
 
 SPEC = PropSpec(
